@@ -18,8 +18,10 @@ def convertPropTake (run : Nat) (f : File) (p : Path) (c : Nat) : File Ã— Option
   | none => (f, some .keyError)
   | some (.new _) => (f, none)
   | some (.old o) =>
-    let r := createAll (f.props.filter (Â·.1 != p)) ((converted run p o).take c)
-    ({ f with props := r.1 }, r.2)
+    if nameTaken f.props (converted run p o) then (f, some .valueError)
+    else
+      let r := createAll (f.props.filter (Â·.1 != p)) ((converted run p o).take c)
+      ({ f with props := r.1 }, r.2)
 
 /-- the upgrade with an exception raised at the `(c+1)`-th `create_property` call of its `k`-th step (0-based);
 a step that makes fewer calls (or is not a property conversion) is not interrupted and the run goes on -/
@@ -31,7 +33,7 @@ def interruptInside (lib : List Nat) (run : Nat) (k c : Nat) (f : File) : File Ã
     | .prop p :: rest =>
       match lookup g.props p with
       | some (.old o) =>
-        if c < (converted run p o).length then convertPropTake run g p c
+        if c < (converted run p o).length || nameTaken g.props (converted run p o) then convertPropTake run g p c
         else runSteps lib run g (.prop p :: rest)
       | _ => runSteps lib run g (.prop p :: rest)
     | rest => runSteps lib run g rest
